@@ -834,7 +834,7 @@ pub trait Parser<'src, I: Input<'src>, O, E: ParserExtra<'src, I> = extra::Defau
     where
         Self: Sized,
     {
-        Memoized { parser: self }
+        Memoized::new(self)
     }
 
     /// Transform all outputs of this parser to a predetermined value.
